@@ -1,6 +1,7 @@
 package imap
 
 import (
+	"strconv"
 	"strings"
 )
 
@@ -87,4 +88,79 @@ func VerifC12ParamString() {
 		nonEmpty++
 	}
 	vsymAssert(strs == nonEmpty, "every non-empty value is one quoted string (no value splits or swallows its neighbour)")
+}
+
+// c12Lines is the reference line count of a text body: the number of lines, a last line without line break counts.
+func c12Lines(b []byte) int {
+	n := 0
+	open := false
+	for _, c := range b {
+		open = true
+		if c == '\n' {
+			n++
+			open = false
+		}
+	}
+	if open {
+		n++
+	}
+	return n
+}
+
+// VerifC12Structure: BODY / BODYSTRUCTURE / ENVELOPE of template messages with symbolic bytes.
+//   tpl 0: text/plain with an arbitrary body: the BODY text is exactly ("text" "plain" (...) NIL NIL NIL size lines)
+//   tpl 1: multipart/mixed with two text parts whose bodies are arbitrary text: exact BODY text
+//   tpl 2: arbitrary bytes in the Subject / From / Content-Type value: no panic, every text a well-formed list
+func VerifC12Structure() {
+	g := vsymParam("g")
+	switch vsymParam("tpl") {
+	case 0:
+		body := vsymBytes("body", g)
+		lit := append([]byte("Content-Type: text/plain; charset=x\r\n\r\n"), body...)
+		pm, err := NewParsedMessage(lit)
+		vsymAssert(err == nil, "a text/plain message has a structure")
+		if err != nil {
+			return
+		}
+		want := "(\"text\" \"plain\" (\"charset\" \"x\") NIL NIL NIL " + strconv.Itoa(len(body)) + " " + strconv.Itoa(c12Lines(body)) + ")"
+		vsymAssert(pm.Body == want, "BODY of a text part: type, parameters, size and line count of the part")
+		ok, _ := c12ListShape(pm.Structure)
+		vsymAssert(ok, "BODYSTRUCTURE is a well-formed list")
+	case 1:
+		b1 := vsymBytes("part1", g)
+		b2 := vsymBytes("part2", g)
+		for _, c := range append(append([]byte(nil), b1...), b2...) {
+			vsymAssume(c != '\n')
+			vsymAssume(c != '\r')
+			vsymAssume(c != '-')
+		}
+		lit := []byte("Content-Type: multipart/mixed; boundary=b\r\n\r\n--b\r\nContent-Type: text/plain\r\n\r\nx" + string(b1) + "\r\n--b\r\nContent-Type: text/html\r\n\r\ny" + string(b2) + "\r\n--b--\r\n")
+		pm, err := NewParsedMessage(lit)
+		vsymAssert(err == nil, "a multipart message has a structure")
+		if err != nil {
+			return
+		}
+		// (gluon writes an empty parameter list as "()" where RFC 3501's body-fld-param says NIL: still a well-formed
+		// parenthesised list, which is what the property asks for)
+		want := "((\"text\" \"plain\" () NIL NIL NIL " + strconv.Itoa(1+len(b1)) + " 1)(\"text\" \"html\" () NIL NIL NIL " + strconv.Itoa(1+len(b2)) + " 1) \"mixed\")"
+		vsymAssert(pm.Body == want, "BODY of a multipart: the parts in order with their sizes and line counts, then the subtype")
+	case 2:
+		v := vsymBytes("value", g)
+		for _, c := range v {
+			vsymAssume(c != '\n') // stays on the header line
+			vsymAssume(c != '\r')
+		}
+		field := []string{"Subject", "From", "Content-Type", "Content-Disposition"}[vsymChoice("field", 4)]
+		lit := []byte(field + ": " + string(v) + "\r\nTo: a@b.c\r\n\r\nbody\r\n")
+		pm, err := NewParsedMessage(lit)
+		if err != nil {
+			vsymCover("structure-error")
+			return
+		}
+		for _, text := range []string{pm.Body, pm.Structure, pm.Envelope} {
+			ok, _ := c12ListShape(text)
+			vsymAssert(ok, "ENVELOPE / BODY / BODYSTRUCTURE are well-formed parenthesised lists for every header value")
+		}
+	}
+	vsymCover("structure-done")
 }
